@@ -19,6 +19,8 @@ be the image of the IR cardinality.
 """
 from __future__ import annotations
 
+import re
+
 from vp_harness import core, schemaenv as SE
 from vp_harness.gen import query as Q
 from vp_harness.oracles import toyeval as TE
@@ -120,6 +122,10 @@ def run_case(case):
                 break
             for name, vals in v.shape.items():
                 if not isinstance(vals, list) or name in ('id',):
+                    continue
+                # only elements the query itself computes (`cN := ...`): the cardinality of a plain
+                # schema pointer is a schema fact, not an inference about this query
+                if not re.fullmatch(r'c\d+', name):
                     continue
                 try:
                     ptr = stype.maybe_get_ptr(ir.schema, S['sn'].UnqualName(name))
